@@ -1,4 +1,5 @@
 import re
+import threading
 from configparser import ConfigParser
 from io import StringIO
 from warnings import warn
@@ -1918,6 +1919,12 @@ class LazyCryptContext(CryptContext):
 
     _lazy_kwds = None
 
+    #: set while _lazy_init() is running, so that other threads wait for it
+    _lazy_busy = False
+
+    #: lock held while a context initializes itself
+    _lazy_lock = threading.RLock()
+
     # NOTE: the way this class works is that whenever any of the public
     #       attributes are accessed, _lazy_init() is invoked, the class itself is changed
     #       to a regular CryptContext (to remove the overhead once it's unneeded)
@@ -1928,17 +1935,32 @@ class LazyCryptContext(CryptContext):
         self._lazy_kwds = kwds
 
     def _lazy_init(self):
-        kwds = self._lazy_kwds
-        if "onload" in kwds:
-            onload = kwds.pop("onload")
-            kwds = onload(**kwds)
-        del self._lazy_kwds
-        super().__init__(**kwds)
-        self.__class__ = CryptContext
+        with LazyCryptContext._lazy_lock:
+            kwds = self._lazy_kwds
+            if kwds is None:
+                # another thread finished the job while we waited for the lock,
+                # or we were re-entered from CryptContext.__init__() below.
+                return
+            self._lazy_busy = True
+            self._lazy_kwds = None
+            try:
+                if "onload" in kwds:
+                    onload = kwds.pop("onload")
+                    kwds = onload(**kwds)
+                super().__init__(**kwds)
+                self.__class__ = CryptContext
+            finally:
+                # NOTE: cleared last -- until then other threads block on the lock
+                self._lazy_busy = False
 
     def __getattribute__(self, attr):
-        if (
-            not attr.startswith("_") or attr.startswith("__")
-        ) and self._lazy_kwds is not None:
-            self._lazy_init()
+        if not attr.startswith("_") or attr.startswith("__"):
+            getattribute = object.__getattribute__
+            if (
+                getattribute(self, "_lazy_kwds") is not None
+                or getattribute(self, "_lazy_busy")
+            ):
+                # NOTE: not using self._lazy_init(), another thread may have
+                #       switched our class to CryptContext in the meantime
+                LazyCryptContext._lazy_init(self)
         return object.__getattribute__(self, attr)
